@@ -8,8 +8,10 @@ from props import base
 from props.base import Context  # noqa: F401
 
 PID = 'C20'
-TIE_MODULES = ['DiffxVerif.Tie.RegexLexer']
-NEEDS = ['re_lexer']
+TIE_MODULES = []
+NEEDS = []
+# a change of these pattern tables makes the check search with its escalated budget (no obligation)
+SOFT_PATTERNS = ['re_lexer']
 ASSUMPTIONS = [
     "Pygments' RegexLexer engine and its stock JsonLexer / DiffLexer are third-party environment: the engine is modelled by Lexer.lexGo, the sub-lexers are parameters assumed lossless (that assumption is tested on the same inputs with the real sub-lexers)",
     'for the correspondence the sub-lexers are replaced by an opaque one-token lexer so that only the DiffX rule table is compared',
@@ -115,6 +117,9 @@ class Spec(object):
                     d = c[1].replace(b'#.', b'#~').replace(b'\xff', b'y').replace(b'\xfe', b'z')
                     if rng.random() < 0.3:
                         d = b'# HG changeset patch\n# User x\n' + d
+                    if rng.random() < 0.25:
+                        # ordinary text that happens to contain the keywords of the binary-delta rule
+                        d = b'@@ -1,2 +1,2 @@\n-max_delta 10\n+max_delta 30\n timedelta 5\n' + d
                     try:
                         d.decode('utf-8')
                     except UnicodeDecodeError:
